@@ -236,7 +236,8 @@ def _shard_main(mod, args):
         for idx, case in enumerate(mod.gen_cases(run)):
             if idx % args.nshards != args.shard:
                 continue
-            if run.out_of_time():
+            if run.out_of_time() and not (isinstance(case, dict) and case.get('must')):
+                # cases marked 'must' are the enumerated part of a check: never dropped for the budget
                 run.skipped += 1
                 continue
             try:
@@ -343,7 +344,7 @@ def main(mod):
 
     floors = dict(getattr(mod, 'FLOORS', {}).get(args.tier, getattr(mod, 'FLOORS', {}).get('quick', {})))
     for name, need in floors.items():
-        have = total.evaluations if name == 'evaluations' else total.monitors.get(name, 0)
+        have = total.evaluations if name == 'evaluations' else total.monitors.get(name, total.extra.get(name, 0))
         if have < need:
             inconclusive.append('monitor %s reached %d times, floor %d' % (name, have, need))
     if total.errors:
